@@ -550,8 +550,10 @@ class Executor:
         return Num.var(f"{base}!{self.fresh_counter}", ty)
 
     # -- calling -------------------------------------------------------------------
-    def call_function(self, func, args: dict, pc=TRUE, unwrap=True):
+    def call_function(self, func, args: dict, pc=TRUE, unwrap=True, node_override=None, extra_globals=None):
         node, filename, firstline, f = func_ast(func, unwrap)
+        if node_override is not None:
+            node = node_override  # e.g. the AST produced by the real _make_vectorizable_ast for `func`
         if len(self.frames) >= self.MAX_INLINE_DEPTH:
             raise Unsupported("inline depth exceeded", node)
         fr = Frame(node.name, filename, firstline)
@@ -579,13 +581,13 @@ class Executor:
                 if n in args:
                     env[n] = args[n]
                 elif n in defaults:
-                    env[n] = self.eval(defaults[n], {"__globals__": f.__globals__}, pc)
+                    env[n] = self.eval(defaults[n], {"__globals__": f.__globals__ if not extra_globals else {**f.__globals__, **extra_globals}}, pc)
                 else:
                     raise Unsupported(f"missing argument {n} for {node.name}", node)
             extra = set(args) - set(names)
             if extra:
                 raise Unsupported(f"unexpected arguments {extra} for {node.name}", node)
-            env["__globals__"] = f.__globals__
+            env["__globals__"] = f.__globals__ if not extra_globals else {**f.__globals__, **extra_globals}
             env["__locals__"] = {n.id for n in ast.walk(node) if isinstance(n, ast.Name) and isinstance(n.ctx, ast.Store)}
             if f.__closure__:
                 env["__closure__"] = dict(zip(f.__code__.co_freevars, [c.cell_contents for c in f.__closure__]))
@@ -1827,6 +1829,27 @@ def _h_npminimum(ex, args, kwargs, pc, node):
     return merge_values(c, a, b)
 
 
+class CrossRowReduction(Unsupported):
+    """numpy.sum/any/all/max/min applied to a sequence of per-row values reduces over ALL rows."""
+
+
+def _np_reduction(pyfn):
+    def h(ex, args, kwargs, pc, node):
+        if len(args) != 1 or kwargs:
+            raise Unsupported("numpy reduction with axis / several arguments", node)
+        seq = args[0]
+        items = seq.items if isinstance(seq, GuardedSeq) else ex.iterate(seq, node, pc)
+        if any(_is_symbolic(v) for _, v in items):
+            raise CrossRowReduction(f"numpy.{pyfn.__name__} over a sequence of row-dependent values reduces across rows", node)
+        return HANDLERS[_callable_key(pyfn)](ex, args, kwargs, pc, node)
+
+    return h
+
+
+for _np, _py in ((numpy.sum, builtins.sum), (numpy.any, builtins.any), (numpy.all, builtins.all), (numpy.max, builtins.max), (numpy.min, builtins.min)):
+    HANDLERS[_callable_key(_np)] = _np_reduction(_py)
+
+
 @handler(numpy.where)
 def _h_npwhere(ex, args, kwargs, pc, node):
     c, a, b = args
@@ -1907,13 +1930,15 @@ def annotation_type(func, name):
     return ann
 
 
-def summarise(func, sym_args=None, conc_args=None, suffix="", range_bound=None, contracts=None, inline_pred=None):
+def summarise(func, sym_args=None, conc_args=None, suffix="", range_bound=None, contracts=None, inline_pred=None, node_override=None, extra_globals=None):
     """Symbolically execute `func`.
 
     sym_args : names -> pytype string (default: from the annotations float/int/bool)
     conc_args: names -> concrete objects (parameter dicts, or fixed values)
     """
     node, filename, firstline, f = func_ast(func)
+    if node_override is not None:
+        node = node_override
     ex = Executor(range_bound=range_bound, contracts=contracts, inline_pred=inline_pred)
     conc_args = conc_args or {}
     args = {}
@@ -1938,7 +1963,7 @@ def summarise(func, sym_args=None, conc_args=None, suffix="", range_bound=None, 
         v = Num.var(n + suffix, ty)
         sym_vars[n] = (v.alts[0][1], ty)
         args[n] = v
-    fr = ex.call_function(f, args, TRUE)
+    fr = ex.call_function(f, args, TRUE, node_override=node_override, extra_globals=extra_globals)
     result = ex.result_of(fr)
     s = Summary(node.name, result, fr.returns, fr.raises, ex.obligations, ex.reads, sym_vars, f"{filename}:{firstline}")
     s.assumed_bounds = ex.assumed_bounds
